@@ -282,6 +282,35 @@ static void testcc() {
     }
 }
 
+// deterministic degenerate inputs (finding F-C08-1): constraints between bodies that have no relative mobility
+static void degenerateOne(int which) {
+    MultibodySystem sys; SimbodyMatterSubsystem matter(sys); GeneralForceSubsystem forces(sys);
+    Force::UniformGravity(forces, matter, Vec3(1, -9.8, 0.5));
+    Body::Rigid b(MassProperties(2, Vec3(0.1, 0.2, -0.1), Inertia(1, 2, 3)));
+    Rotation R1; R1.setRotationFromAngleAboutNonUnitVector(0.7, Vec3(1, 2, 3));
+    Rotation R2; R2.setRotationFromAngleAboutNonUnitVector(-1.1, Vec3(-1, 0.5, 2));
+    if (which == 0) {       // Ball between a free body and a body welded to it: G is zero up to roundoff
+        MobilizedBody::Free b1(matter.Ground(), Transform(R1, Vec3(0.1, 0.3, 0.2)), b, Transform(Vec3(0.2, -0.1, 0.4)));
+        MobilizedBody::Weld b2(b1, Transform(R2, Vec3(0.3, 0.2, 0.5)), b, Transform(Vec3(-0.2, 0.3, 0.1)));
+        Constraint::Ball ball(b1, Vec3(0.3, 0.1, 0.2), b2, Vec3(0.2, 0.4, -0.3));
+    } else {                // ConstantOrientation between Ground and a body that can only translate: G is exactly zero
+        MobilizedBody::Translation b1(matter.Ground(), Transform(R1, Vec3(0.1, 0.3, 0.2)), b, Transform(R2, Vec3(0.2, -0.1, 0.4)));
+        Constraint::ConstantOrientation co(matter.Ground(), Rotation(), b1, R2);
+    }
+    State s = sys.realizeTopology(); sys.realizeModel(s);
+    vh::Rng g(12345 + which);
+    for (int i = 0; i < s.getNQ(); ++i) s.updQ()[i] = g.range(-1, 1);
+    for (int i = 0; i < s.getNU(); ++i) s.updU()[i] = g.range(-1, 1);
+    sys.realize(s, Stage::Position); matter.normalizeQuaternions(s);
+    sys.realize(s, Stage::Acceleration);
+    Vector res; matter.calcResidualForce(s, sys.getMobilityForces(s, Stage::Dynamics), sys.getRigidBodyForces(s, Stage::Dynamics), s.getUDot(), s.getMultipliers(), res);
+    Vector zero(s.getNU(), 0.0), r0; matter.calcResidualForceIgnoringConstraints(s, sys.getMobilityForces(s, Stage::Dynamics), sys.getRigidBodyForces(s, Stage::Dynamics), zero, r0);
+    vh::I("chk").i(which).s("degenerate").emit(); vh::O("chk").i(1).emit();
+    vh::D(which == 0 ? "degenerate.roundoffG" : "degenerate.exactZeroG");
+    const bool finite = !std::isnan(maxAbs(s.getUDot())) && !std::isnan(maxAbs(s.getMultipliers()));
+    vh::P("newton", "zeroG.newton", finite ? maxAbs(res) / std::max(1.0, maxAbs(r0)) : NAN, 1e-9);
+}
+
 int main(int argc, char** argv) {
     vh::Args a(argc, argv);
     if (a.mode == "replay") {
@@ -290,6 +319,7 @@ int main(int argc, char** argv) {
         a.seed = seed; a.n = n; a.mode = "";
     }
     if (a.mode == "testcc") { testcc(); return 0; }
+    if (a.mode == "degenerate") { degenerateOne(0); degenerateOne(1); return 0; }
     std::printf("S %llu %ld\n", (unsigned long long)a.seed, a.n);
     for (long k = 0; k < a.n; ++k) {
         try { oneCase(a.seed * 1000003ull + (uint64_t)k * 7919ull + 31, k); }
